@@ -95,7 +95,7 @@ theorem aggOkCheck_sound {g : GraphVal} {agg : Agg} (h : aggOkCheck g agg = true
 def aggOf (g : GraphVal) (importNodes : List Nat) : Option Agg :=
   match resolveInsts g g.nodes {} with
   | .ok r =>
-    match resolveExplicit g importNodes r.agg [] with
+    match resolveExplicit g r.first importNodes r.agg [] with
     | .ok (agg, _) => some agg
     | _ => none
   | _ => none
